@@ -350,6 +350,7 @@ class World(object):
             'nondet_bytearray': NativeFunc('nondet_bytearray', lambda ex, a, k: _nd_bytes(ex, a, k, True)),
             'ghost': NativeFunc('ghost', _ghost),
             'assume': NativeFunc('assume', lambda ex, a, k: ex.assume(ex.truth(a[0]))),
+            'require': NativeFunc('require', _require),
         })
         return mods
 
@@ -448,6 +449,15 @@ def _nd_bytes(ex, a, k, mutable=False):
             ex.assume(mk_bool(N.zlen(v) <= zint(hi)))
     ex.nondet.append(('bytes', v))
     return v
+
+
+def _require(ex, a, k):
+    caller = '?'
+    for fr in reversed(ex.frames[:-1]):
+        if fr.func is not None:
+            caller = fr.func.qualname
+            break
+    ex.oblige('%s/call-pre:%s' % (caller, a[1]), ex.truth(a[0]), detail='interface precondition ' + str(a[1]))
 
 
 def _ghost(ex, a, k):
@@ -854,7 +864,26 @@ def b_minmax(which):
     return f
 
 
+def seg_sum(ex, seg):
+    """uninterpreted sum measure of a symbolic segment, with ground facts"""
+    import hashlib
+    h = hashlib.sha1(str(seg.tag).encode()).hexdigest()[:8]
+    fn = z3.Function('sum!' + h, z3.IntSort(), z3.IntSort(), z3.IntSort())
+    t = fn(zint(seg.start), zint(seg.length))
+    ex.fact(z3.Implies(zint(seg.length) == 0, t == 0))
+    reg = ex.ghost.setdefault('measures', {})
+    base = getattr(seg, 'src', seg)
+    reg.setdefault(str(base.tag), {})[h] = (fn, getattr(seg, 'fmap', None))
+    return t
+
+
 def b_sum(ex, a, k):
+    if isinstance(a[0], SList) and a[0].mid is not None:
+        l = a[0]
+        acc = a[1] if len(a) > 1 else 0
+        for x in l.left + l.right:
+            acc = N.binop(ex, ast.Add(), acc, x)
+        return mk_int(zint(acc) + seg_sum(ex, l.mid))
     items = N.iterate(ex, a[0])
     acc = a[1] if len(a) > 1 else 0
     for x in items:
@@ -870,6 +899,20 @@ def b_abs(ex, a, k):
 
 
 def b_sorted(ex, a, k):
+    l = a[0]
+    if isinstance(l, SList) and l.mid is not None and not l.left and not l.right:
+        # a permutation of the segment; the order is abstracted away
+        perm = z3.Function(ex.fresh_name('perm'), z3.IntSort(), z3.IntSort())
+        mid = l.mid
+        ex.notes.append('sorted() over a symbolic list is abstracted to an arbitrary permutation')
+
+        def elem(i):
+            j = perm(i)
+            ex.fact(z3.And(j >= zint(mid.start), j < zint(mid.start) + zint(mid.length)))
+            return mid.elem(j)
+        out = SList([])
+        out.mid = SymSeg(mid.length, elem, 0, tag='%s|sorted' % mid.tag)
+        return out
     return SList(M.sort_values(ex, list(N.iterate(ex, a[0])), k.get('key'), k.get('reverse', False)))
 
 
@@ -895,6 +938,15 @@ def b_map(ex, a, k):
 
 def b_filter(ex, a, k):
     f = a[0]
+    l = a[1]
+    if isinstance(l, SList) and l.mid is not None and f is None:
+        probe = l.mid.elem(z3.Int(ex.fresh_name('probe')))
+        if ex.truth(probe) is True and all(ex.truth(x) is True for x in l.left + l.right):
+            out = SList(list(l.left))
+            out.mid = l.mid
+            out.right = list(l.right)
+            return out
+        raise Unsupported('filter over a symbolic list whose elements may be falsy')
     out = []
     for x in N.iterate(ex, a[1]):
         t = ex.truth(x) if f is None else ex.truth(ex.call(f, [x], {}))
@@ -1132,14 +1184,15 @@ def _resolve_class(self, ex, name):
 def _spec_globals(self, ex):
     if getattr(self, '_specg', None) is None:
         g = {}
-        base = self.roots.get('specs')
-        if base and os.path.isdir(base):
-            for fn in sorted(os.listdir(base)):
-                if fn.endswith('.py') and fn != '__init__.py':
-                    m = self.import_module(ex, 'specs.' + fn[:-3])
-                    for k, v in m.globals.items():
-                        if not k.startswith('__'):
-                            g[k] = v
+        for pkg in ('specs', 'models'):
+            base = self.roots.get(pkg)
+            if base and os.path.isdir(base):
+                for fn in sorted(os.listdir(base)):
+                    if fn.endswith('.py') and fn != '__init__.py':
+                        m = self.import_module(ex, pkg + '.' + fn[:-3])
+                        for k, v in m.globals.items():
+                            if not k.startswith('__'):
+                                g[k] = v
         self._specg = g
     return self._specg
 
